@@ -144,3 +144,22 @@ def choose(sym, n):
             if sym == i:
                 return i
     raise IgnoreAttempt("choose out of range")
+
+
+def pick(sym, lo, hi):
+    """Concrete value of a symbolic int constrained to [lo, hi): binary search with traced
+    comparisons (O(log n) decisions per path; the solver enumerates the feasible values)."""
+    if not symbolic_run():
+        if not (lo <= sym < hi):
+            raise IgnoreAttempt('pick out of range')
+        return int(sym)
+    with traced():
+        if not (lo <= sym < hi):
+            raise IgnoreAttempt('pick out of range')
+        while hi - lo > 1:
+            mid = (lo + hi) // 2
+            if sym < mid:
+                hi = mid
+            else:
+                lo = mid
+    return lo
